@@ -420,7 +420,8 @@ def run_client(ctx, counter):
         calls.append(Obs(sim, i, sink).watch(d))
     rig.calm()
     got_signals = []
-    rig.call(lambda: cl.router.addMatch(lambda m: got_signals.append(m), None, None, 'org.sim.Bg'))
+    rig.call(lambda: cl.addMatch(lambda m: got_signals.append(m), interface='org.sim.Bg'))
+    rig.calm()
     nmsgs = 3 + ds.choose(18 * (3 if ctx.tier == 'thorough' else 1))
     nfaults = 1 + ds.choose(4)
     fault_at = sorted(set(ds.choose(nmsgs) for _ in range(nfaults)))
